@@ -16,7 +16,8 @@
    event ID matches the request and sender belongs to the requesting server are the caller's;
    the handler checks the signature of the SENDER's server instead. *)
 From Verif Require Import Lib.Bytes Json.Ast Fed.HandshakeCommon Fed.HandshakeJoin Fed.HandshakeInvite
-     Fed.HandshakePerform Fed.HandshakeSpec Fed.HandshakeProofs Gen.GenConsts Gen.GenVersions.
+     Fed.HandshakePerform Fed.HandshakePerformInvite Fed.HandshakeSpec Fed.HandshakeProofs
+     Gen.GenConsts Gen.GenVersions.
 Open Scope N_scope.
 
 (* the constants of the models are those of package spec, and the version table is the one of
@@ -248,6 +249,33 @@ Proof.
   repeat split; assumption.
 Qed.
 
+(* ---------- perform_invite (room versions with user-ID senders) ----------
+   Not named by the property text; stated because the function is among the anchors.  An invite is
+   handed back only for a known room version, an invitee who is not already joined, an existing
+   room, and an event the auth rules allow.  For a local invitee it is the built event (state key =
+   invitee, at most 10 auth and 20 prev events, signed under the inviter's and the invitee's server
+   names); for a remote invitee it is whatever the invited server answered: PerformInvite does not
+   examine that answer at all in these room versions (see the level note). *)
+Theorem perform_invite_only_if : forall i,
+  pir_out (perform_invite i) = OOk ->
+  perform_invite_admissible i = true /\
+  (pi_target_local i = true ->
+   exists le st, pi_latest_q i = Some le /\
+     pir_event (perform_invite i) =
+       Some (PIBuilt (pi_invitee i) (pl_depth le) (truncate 10 (pl_refs le)) (truncate 20 (pl_prev le))
+                     [pi_inviter_domain i; pi_invitee_domain i] st) /\
+     (length (truncate 10 (pl_refs le)) <= 10)%nat /\ (length (truncate 20 (pl_prev le)) <= 20)%nat) /\
+  (pi_target_local i = false -> pi_send_ok i = true /\ pir_event (perform_invite i) = Some PIRemote).
+Proof.
+  intros i H. destruct (perform_invite_ok i H) as [A [L R]].
+  split; [exact A|]. split.
+  - intro T. destruct (L T) as [le [st [E1 E2]]]. exists le, st.
+    repeat split; try assumption; apply firstn_le.
+  - intro T. split; [|exact (R T)].
+    unfold perform_invite_admissible in A. rewrite T in A.
+    apply andb_true_iff in A. destruct A as [_ A]. exact A.
+Qed.
+
 (* ---------- the oracles of the correspondence run are the theorems' right-hand sides ---------- *)
 Theorem C15_oracles_sound :
   (forall i, tr_out (make_join i) = OOk -> make_join_admissible i = true) /\
@@ -364,4 +392,5 @@ Print Assumptions send_join_output_signed_locally.
 Print Assumptions invite_accept_only_if.
 Print Assumptions invite_output_signed_locally.
 Print Assumptions perform_join_only_if.
+Print Assumptions perform_invite_only_if.
 Print Assumptions C15_oracles_sound.
